@@ -177,7 +177,8 @@ def instances(formulas, opts=None):
             out.append(z3.Implies(hi > lo, e == sd.body_at(lo, args) + first))
     if opts.get("ext", True) and len(sig_apps) <= 40:
         for (sd1, e1), (sd2, e2) in itertools.combinations(sig_apps, 2):
-            if e1.sort() != e2.sort():
+            mixed = e1.sort() != e2.sort()
+            if mixed and not (z3.is_arith(e1) and z3.is_arith(e2)):
                 continue
             lo1, hi1, lo2, hi2 = e1.arg(0), e1.arg(1), e2.arg(0), e2.arg(1)
             if not (z3.simplify(lo1 - lo2).eq(z3.IntVal(0)) and z3.simplify(hi1 - hi2).eq(z3.IntVal(0))):
@@ -187,6 +188,10 @@ def instances(formulas, opts=None):
             a1 = [e1.arg(i) for i in range(2, e1.num_args())]
             a2 = [e2.arg(i) for i in range(2, e2.num_args())]
             b1, b2 = sd1.body_at(x, a1), sd2.body_at(x, a2)
+            if mixed:
+                # an integer-valued and a real-valued sum: the embedding Z -> R commutes with finite sums
+                b1, b2 = (z3.ToReal(b1) if z3.is_int(b1) else b1), (z3.ToReal(b2) if z3.is_int(b2) else b2)
+                e1, e2 = (z3.ToReal(e1) if z3.is_int(e1) else e1), (z3.ToReal(e2) if z3.is_int(e2) else e2)
             out.append(z3.Implies(z3.And(lo1 == lo2, hi1 == hi2,
                                          z3.Implies(z3.And(lo1 <= x, x < hi1), b1 == b2)), e1 == e2))
     return out
